@@ -43,16 +43,22 @@ CLAIMED["C15"] = dict(
     design="§5 C15")
 
 CLAIMED["C04"] = dict(
-    text="Lean 4 proofs about step-for-step models of dec_to_integer, from_integer, the parser's integer classification and basic_bigint's "
-         "+= / -= limb loops (64-bit wrap-around explicit): integer literals parse exactly or report out-of-range at both 64-bit boundaries, stored "
-         "integers print as their exact digits and parse back (incl. INT64_MIN), out-of-range literals are kept digit for digit, bigint addition and "
-         "subtraction are exact for all carries/borrows. Doubles (shortest <= 17 digit printing that parses back; correctly rounded parsing), bigint "
-         "* / % shifts and radix/byte conversions are decided per case against exact Python arithmetic on boundary-directed inputs (every power of "
-         "two, powers of ten +-1ulp, midpoints, limb edge values).",
-    note="Partial: Grisu3/snprintf digit generation, strtod/from_chars, bigint multiplication/division/shifts are validated per case (Python int / "
-         "correctly rounded float() as oracle), not proved. Trusted: models, harness, Python arithmetic.",
-    technique="Lean 4 theorems (exact integer parse/print, bigint add/sub loops) + correspondence + exact-arithmetic oracle",
-    design="§5 C04")
+    text="Lean 4 proofs about step-for-step models (64-bit wrap-around explicit) of dec_to_integer, from_integer, the parser's integer "
+         "classification and basic_bigint's limb loops: integer literals parse exactly or report out-of-range at both 64-bit boundaries, stored "
+         "integers print as their exact digits and parse back (incl. INT64_MIN), out-of-range literals are kept digit for digit; bigint DDproduct, "
+         "*= word, *= bigint (schoolbook with its early exits), += / -= / compare, <<= / >>=, the decimal-string constructor, from_bytes_be / "
+         "write_bytes_be (and their round trip), division by one word on the modelled exits, and print-then-parse for one-word values "
+         "(multi-word printing conditional on the exactness of divide(10^19), made an explicit premise) are exact for all operands. The models are "
+         "tied WORD FOR WORD to the real member functions (operands built directly into the limbs). Doubles (shortest <= 17 digit printing that parses "
+         "back in every float_chars_format at precision 0, correctly rounded rendering at explicit precisions, correctly rounded parsing), the Knuth "
+         "exit of divide and hex text are decided per case against exact Python arithmetic on boundary-directed inputs.",
+    note="Partial: Grisu3/snprintf digit generation, strtod/from_chars, the general (Knuth) division path (normalize/DDquotient/subtractmul/"
+         "unnormalize) and multi-word write_string are validated per case (Python int / correctly rounded float() as oracle), not proved. D19, D20, "
+         "D83 (a % a assertion), D85 (wrong quotient when leading words are equal) found and fixed. Observed, not flagged: float_format fixed with "
+         "precision 0 writes a tiny double that grisu3 declines as 0.00000000000000000 (documented %.17f fallback).",
+    technique="Lean 4 theorems (exact integer parse/print; bigint multiply, shift, radix, byte and one-word-division loops) + word-for-word "
+              "correspondence + exact-arithmetic oracle",
+    design="§5 C04, §9.2")
 
 CLAIMED["C01"] = dict(
     text="Lean 4 proofs about a bug-faithful model of the serializer (JV.Model.JsonEncode: basic_compact_json_encoder and the indenting "
@@ -116,7 +122,9 @@ CLAIMED["C07"] = dict(
     text="The real CBOR, MessagePack, UBJSON and BSON decoders are compared on every run with reference decoders written in Lean 4 from the "
          "specifications, on outputs of independent reference encoders in every legal width and form, mutations, every strict prefix and every 1-2 "
          "(thorough: sampled 3) byte string. Proved about the CBOR reference: integers of all five widths and both majors are read back exactly from "
-         "the encoder model's head, reserved additional information 28-31 and truncated heads are ill-formed for every continuation.",
+         "the encoder model's head, reserved additional information 28-31 and truncated heads are ill-formed for every continuation."
+         " The MessagePack / UBJSON / BSON type codes, CBOR major types, additional-information constants, typed-array tags and the stringref ladder are "
+         "regenerated from the source on every run and proved equal to the specification tables the reference decoders use (C07X).",
     note="Partial: the decoders themselves are not modelled; assurance = differential testing against a Lean reference. Renderings that are jsoncons' own "
          "choice (tags 4/5, typed arrays, stringref, ext types, non-text keys) are 'unjudged' by the reference. D4, D5 fixed; D24, D25 (BSON leniencies) listed.",
     technique="Lean 4 reference decoders (theorems about the CBOR reference) + differential testing of the real decoders",
@@ -234,7 +242,9 @@ CLAIMED["C05"] = dict(
          "conversions (tuple, std::array) reject inputs that are too short instead of reading past them; the CSV field scanner is total. Everything else is observed: "
          "every public entry point (decode_* through buffer, stream, cursor, reader and typed forms for JSON, CBOR, MessagePack, UBJSON, BSON, CSV with typed columns, "
          "TOON; JSONPath, JMESPath, JSON Pointer, URI and JSON Schema compilers and their evaluation; encoders under random option sets) is driven with mutated "
-         "spec-derived inputs and hand-built hostile ones under ASan+UBSan, every exception classified, every call given a time budget.",
+         "spec-derived inputs and hand-built hostile ones under ASan+UBSan, every exception classified, every call given a time budget."
+         " Every fixed buffer of write_number.hpp and every snprintf call (target, size, format, precision, whether the length is checked before "
+         "the target is read) is regenerated from the source on every run and proved to fit or to be length-checked (C05X, tools/extract.py).",
     note="Partial: memory safety, undefined behaviour, leaks, termination and exception types are facts about the compiled artefact; the proofs cover the logic of "
          "bounds only, the rest is sanitizer-observed on a finite set of inputs. D64 (out-of-bounds read in the JMESPath compiler) and D65 (compiler loops forever) "
          "found and fixed here; D3, D34, D39, D58, D59 found by other properties' checks are of this kind too.",
